@@ -126,6 +126,10 @@ def c04_job(chk, rng, i):
         feats.append("full_ecs_default_8bit")
     cfg = {"flavour": fl, "flexargs": fargs,
            "opts": {"interactive": inter, "array": array}}
+    if fl == "cxx" and (i // 7) % 2 == 0:
+        # the C++ class reads through its own LexerInput() from a std::istream
+        cfg["opts"]["cxx_stream"] = True
+        feats.append("cxx_own_lexerinput:" + str(inter))
     feats += ["tables:" + (tb or "default"), "mode:" + str(inter), "bits:%d" % p["bits"],
               "array" if array else "pointer"]
     return {"case": case, "configs": [cfg], "inputs": inputs, "skip_if": dangerous,
